@@ -17,10 +17,11 @@ import OpusModel.Gen.StructFields
                                   which members each phase reads and writes  → `encodeStep`
     src/opus_decoder.c:66-93, 130-174, 1029-1043   OpusDecoder, init, reset  → `Dec`, `decInit`, `decReset`
 
-  `encReset` / `decReset` transcribe the reset code INCLUDING the repair proposed for DESIGN §9-F2
-  (the five statements after `variable_HP_smth2_Q15 = …` and `DecControl.prevPitchLag = 0`); on a tree
-  without the repair the correspondence suite `misc encreset` / `misc decreset` reports the members
-  that survive, and the twin search turns them into a witness.
+  `encReset` / `decReset` transcribe the reset code as it stands since fix 14e3a558 (DESIGN §9-F2): the
+  five statements after `variable_HP_smth2_Q15 = …` (opus_encoder.c:3103-3108) and
+  `DecControl.prevPitchLag = 0` (opus_decoder.c:1047-1048).  The correspondence suite `misc encreset` /
+  `misc decreset` compares every member after a reset; a member that survives is turned into a witness
+  by the twin search.
 
   Sub-states owned by the DSP (SILK / CELT encoder state, tonality analysis, filter memories and the
   delay buffer) are `Blob`s: either `fresh` (bitwise the freshly initialised content) or an opaque
@@ -200,10 +201,10 @@ def encInit (fs channels application arch silkOff celtOff : Int) : Enc :=
 
 /-! ## OPUS_RESET_STATE -/
 
-/-- OPUS_RESET_STATE of the encoder (opus_encoder.c:3077-3104): tonality_analysis_reset, OPUS_CLEAR
+/-- OPUS_RESET_STATE of the encoder (opus_encoder.c:3077-3110): tonality_analysis_reset, OPUS_CLEAR
     from `stream_channels` to the end of the struct, CELT reset (from `rng`: its configuration
     survives), silk_InitEncoder into a dummy control struct (so `silk_mode` survives), the seven
-    re-derived members — and the repair: the inter-frame members that live outside the cleared
+    re-derived members, and (:3103-3108) the inter-frame members that live outside the cleared
     region (`voice_ratio`, `silk_mode.LBRR_coded`, `.allowBandwidthSwitch`,
     `.inWBmodeWithoutVariableLP`, CELT's prediction switches). -/
 def encReset (s : Enc) : Enc :=
@@ -219,13 +220,13 @@ def encReset (s : Enc) : Enc :=
     -- re-derived
     streamChannels := s.channels, hybridStereoWidthQ14 := 16384, prevHBgain := Q15ONE_BITS, first := 1,
     mode := MODE_HYBRID, bandwidth := BW_FB, variableHPsmth2Q15 := HP_SMTH2_INIT,
-    -- repair (DESIGN §9-F2)
+    -- :3103-3108 inter-frame state kept outside the cleared area (fix 14e3a558)
     voiceRatio := -1,
     silkMode := { s.silkMode with lbrrCoded := 0, allowBandwidthSwitch := 0, inWBmodeWithoutVariableLP := 0 },
     celt := { s.celt with disablePf := 0, forceIntra := 0 } }
 
-/-- The reset as the tree has it WITHOUT the repair (used by the driver to report which members
-    differ, and by the counterexample of `OpusProps.C12`). -/
+/-- The reset as the tree had it BEFORE fix 14e3a558 (kept only for the documented counterexample
+    in `OpusProps.C12`; not a model of current code). -/
 def encResetUnrepaired (s : Enc) : Enc :=
   { (encReset s) with voiceRatio := s.voiceRatio, silkMode := s.silkMode, celt := s.celt }
 
@@ -698,8 +699,8 @@ def decInit (fs channels arch silkOff celtOff : Int) : Dec :=
     silkState := .fresh, celtState := .fresh, celtComplexity := 0,
     celtDisableInv := if channels = 1 then 1 else 0, silkNChannelsAPI := 0, silkNChannelsInternal := 0 }
 
-/-- OPUS_RESET_STATE of the decoder (opus_decoder.c:1029-1043) with the repair
-    `st->DecControl.prevPitchLag = 0` (OPUS_GET_PITCH reads it when `prev_mode != MODE_CELT_ONLY`). -/
+/-- OPUS_RESET_STATE of the decoder (opus_decoder.c:1029-1054), including
+    `st->DecControl.prevPitchLag = 0` (:1048) (OPUS_GET_PITCH reads it when `prev_mode != MODE_CELT_ONLY`). -/
 def decReset (s : Dec) : Dec :=
   { s with
     bandwidth := 0, mode := 0, prevMode := 0, prevRedundancy := 0, lastPacketDuration := 0,
